@@ -527,6 +527,43 @@ def setDefaults (allowDefaultOwner : Bool) (v : List Str) : R CapSet :=
   | .ok s =>
     if !(antiOwnerS ∈ s) && !allowDefaultOwner then CapSet.add s antiOwnerS else .ok s
 
+/-! ## 8b. `Channel.voice` / `devoice`: which capability the body asks for
+
+`Channel._voice` picks the weaker `#chan,voice` only when the caller acts on himself alone. -/
+
+def voiceS : Str := ['v', 'o', 'i', 'c', 'e']
+
+/-- the capability name `_voice` requires: `voice` when no nick is given (the caller voices himself)
+or when the single nick given is exactly `msg.nick`; `op` for anything else -/
+def voiceCapability (callerNick : Str) (nicks : List Str) : Str :=
+  match nicks with
+  | [] => voiceS
+  | [n] => if n == callerNick then voiceS else opS
+  | _ => opS
+
+/-- the nicks the MODE change is sent for -/
+def voiceTargets (callerNick : Str) (nicks : List Str) : List Str :=
+  if nicks.isEmpty then [callerNick] else nicks
+
+/-- outcome of the body of `voice` / `devoice` -/
+inductive VoiceOut
+  /-- `self._sendMsgs(irc, nicks, …)`: MODE ±v for these nicks -/
+  | modes (targets : List Str)
+  /-- `irc.errorNoCapability(capability)` -/
+  | noCapability (cap : Str)
+  | crash (e : Err)
+deriving DecidableEq, Repr
+
+/-- `Channel._voice(irc, msg, args, channel, nicks, fn)` -/
+def voiceBody (db : Db) (now : Int) (h callerNick channel : Str) (nicks : List Str) : VoiceOut :=
+  match makeChannelCapability channel (voiceCapability callerNick nicks) with
+  | .error e => .crash e
+  | .ok cap =>
+    match db.checkCapability now h cap with
+    | .error e => .crash e
+    | .ok true => .modes (voiceTargets callerNick nicks)
+    | .ok false => .noCapability cap
+
 /-! ## 9. which message reaches the gate at a re-dispatch site
 
 Every site that runs a command builds `Proxy(irc, msg, tokens)` (inventory `Gen.proxySites`); the
